@@ -324,3 +324,16 @@ def c09_7(ctx: Ctx) -> RuleResult:
         i.rule = "C09.7"
     r.rule, r.title, r.floor = "C09.7", "samplers write samples only at the mask handed to them (zeros elsewhere), the mask kept as given", 1
     return r
+
+
+@rule(P)
+def c09_8(ctx: Ctx) -> RuleResult:
+    """Shared with C07.5: the ensemble-level function cache (consumed under an exact point test, stored whenever
+    the functions-only path ran, cleared before a combined evaluation)."""
+    from .c07 import c07_5
+
+    r = c07_5(ctx)
+    for i in r.instances:
+        i.rule = "C09.8"
+    r.rule, r.title = "C09.8", "a gradient evaluation perturbs the variables just delivered (fixed ones included): the cached function result is reused only for exactly the requested point"
+    return r
